@@ -1,7 +1,10 @@
-(* C06: property theorems (statements proved so far; see bin/propcfg/C06.py for the status). *)
-From Coq Require Import List ZArith Bool Permutation.
-From DD Require Import Model.Circuit Model.Query Model.Enumerate Proofs.Semantics Proofs.CountsA.
+(* C06: property theorems (see bin/propcfg/C06.py for the status). *)
+From Coq Require Import List ZArith Bool Lia Permutation.
+From DD Require Import Model.Circuit Model.Query Model.Enumerate Proofs.Semantics Proofs.DetCert
+     Proofs.CountsA Proofs.QueryDefs
+     Proofs.C06Prefix Proofs.C06Machine Proofs.C06Node Proofs.C06Sort Proofs.C06Page.
 Import ListNotations.
+Open Scope Z_scope.
 
 (* The unbounded enumeration in the order enumerate_node produces it is exactly the model set:
    every model once, nothing else (all WF circuits). *)
@@ -15,3 +18,304 @@ Theorem C06_compatible_count : forall C n A, WF C n -> in_range n A ->
   nth (root C) (countsA A C) 0 = MCA C n A.
 Proof. exact countsA_MCA. Qed.
 Print Assumptions C06_compatible_count.
+
+(* ---------------------------------------------------------------------------------------------
+   Definitions used below (all in Proofs/C06*.v):
+     EO A C i        = filter (okA A) (nth i (enums C) [])   full enumeration of node i under A
+     EOr C A         = EO A C (root C)
+     temps_ok A C ts = forall i < |C|, node i is not TrueN -> nth i ts 0 = nth i (countsA A C) 0
+     or_no_true_child C : no Or node has a TrueN child
+     exec_spec C n A = forall clean s, preprocess (build C n) A s = Some s1 ->
+                       execute_query (build C n) (sort_abs A) s1 = (s2, r) ->
+                       r = MCA C n A /\ (0 < r -> temps_ok (sort_abs A) C (temps s2)) /\ Clean C s2
+                       (the correctness of execute_query on the preprocessed scratch; HYPOTHESIS of
+                        the page theorems, proved here only for A = [] : C06_exec_spec_nil)
+   --------------------------------------------------------------------------------------------- *)
+
+(* (1a) the mixed-radix prefix lemma on plain lists: truncating the factors the way the And loop
+   does (min hi |T| while the running product is < hi, one element afterwards) does not change the
+   first hi elements of the cartesian product (first list = fastest digit) *)
+Theorem C06_mixed_radix_prefix : forall hi (Ts : list (list cfg)),
+  (forall T, In T Ts -> T <> []) ->
+  firstn (Z.to_nat hi) (prod (rev (trunc hi 1 Ts))) = firstn (Z.to_nat hi) (prod (rev Ts)).
+Proof. exact mixed_radix_prefix. Qed.
+Print Assumptions C06_mixed_radix_prefix.
+
+(* (1b) core lemma: enumerate_node with range (lo, hi) is the slice [lo, hi) of the node's full
+   enumeration under A, as lists (order included) *)
+Theorem C06_enumerate_node_slice : forall (d : ddnnf) (A : cfg) (ts : list Z),
+  idx_ok (circ d) = true -> temps_ok A (circ d) ts -> or_no_true_child (circ d) = true ->
+  forall i, (i < length (circ d))%nat -> nth i (circ d) FalseN <> TrueN ->
+  forall fuel lo hi, (i < fuel)%nat -> 0 <= lo < hi ->
+    hi <= Z.of_nat (length (EO A (circ d) i)) ->
+    enumerate_node d ts fuel lo hi i = slice lo hi (EO A (circ d) i).
+Proof. exact enumerate_node_slice. Qed.
+Print Assumptions C06_enumerate_node_slice.
+
+(* the hypothesis or_no_true_child cannot be dropped: an Or node with a (hidden) true child
+   loses the empty configuration *)
+Definition bad_or : circuit := [Lit 1; TrueN; Or [0;1]%nat].
+Example C06_or_true_child_refuted :
+  idx_ok bad_or = true /\ temps_ok [] bad_or [1;0;2] /\
+  enumerate_node (build bad_or 1) [1;0;2] 3 0 2 2 <> slice 0 2 (EO [] bad_or 2).
+Proof.
+  split; [reflexivity|]. split; [|vm_compute; discriminate].
+  intros i Hi Hnt. do 3 (destruct i as [|i]; [try reflexivity; exfalso; now apply Hnt|]).
+  cbn in Hi. lia.
+Qed.
+
+(* (2) one call of enumerate: the page is the next slice, sorted by feature; the cursor entry of
+   the abs-sorted assumption list moves to min c (p + amount) mod c; other entries are untouched *)
+Theorem C06_enumerate_page : forall C n, WF C n -> (0 < n)%nat -> or_no_true_child C = true ->
+  forall A amount cur s, in_range n A -> exec_spec C n A -> Clean C s -> 0 < amount ->
+  let c := MCA C n A in
+  let p := cur_get cur (sort_abs A) in
+  let stop := Z.min c (p + amount) in
+  0 < c -> 0 <= p < c ->
+  exists s2, Clean C s2 /\
+    enumerate (build C n) A amount cur s =
+    (s2, cur_set cur (sort_abs A) (stop mod c), Some (map sort_abs (slice p stop (EOr C A)))).
+Proof. exact enumerate_page. Qed.
+Print Assumptions C06_enumerate_page.
+
+Theorem C06_enumerate_page_cursor : forall C n, WF C n -> (0 < n)%nat -> or_no_true_child C = true ->
+  forall A amount cur s s2 cur2 r, in_range n A -> exec_spec C n A -> Clean C s -> 0 < amount ->
+  let c := MCA C n A in
+  let p := cur_get cur (sort_abs A) in
+  0 < c -> 0 <= p < c ->
+  enumerate (build C n) A amount cur s = (s2, cur2, r) ->
+  cur_get cur2 (sort_abs A) = Z.min c (p + amount) mod c /\
+  (forall k, k <> sort_abs A -> cur_get cur2 k = cur_get cur k).
+Proof. exact enumerate_page_cursor. Qed.
+Print Assumptions C06_enumerate_page_cursor.
+
+Theorem C06_enumerate_zero : forall C n A cur s,
+  enumerate (build C n) A 0 cur s = (s, cur, Some []).
+Proof. exact enumerate_zero. Qed.
+Print Assumptions C06_enumerate_zero.
+
+(* None exactly when no model contains A or a literal is out of range (non-zero literals) *)
+Theorem C06_enumerate_none_iff : forall C n, WF C n -> (0 < n)%nat ->
+  forall A amount cur s,
+  (forall l, In l A -> l <> 0) -> (in_range n A -> exec_spec C n A) -> Clean C s -> amount <> 0 ->
+  (snd (enumerate (build C n) A amount cur s) = None <-> MCA C n A = 0 \/ out_of_range n A).
+Proof. exact enumerate_none_iff. Qed.
+Print Assumptions C06_enumerate_none_iff.
+
+Theorem C06_enumerate_none_keeps_cursor : forall C n, WF C n -> (0 < n)%nat ->
+  forall A amount cur s, in_range n A -> exec_spec C n A -> Clean C s -> amount <> 0 ->
+  MCA C n A = 0 ->
+  exists s2, Clean C s2 /\ enumerate (build C n) A amount cur s = (s2, cur, None).
+Proof. exact enumerate_none_unsat. Qed.
+Print Assumptions C06_enumerate_none_keeps_cursor.
+
+Theorem C06_enumerate_out_of_range : forall C n A amount cur s,
+  amount <> 0 -> out_of_range n A -> enumerate (build C n) A amount cur s = (s, cur, None).
+Proof. exact enumerate_none_out. Qed.
+Print Assumptions C06_enumerate_out_of_range.
+
+(* the enumeration behind the pages is the set of models containing A, each once, and every
+   returned (sorted) configuration is the truth-table row itself *)
+Theorem C06_EOr_models : forall C n, WF C n -> forall A, in_range n A ->
+  Permutation (map (canon_cfg n) (EOr C A)) (ModelsA C n A).
+Proof. exact EOr_models. Qed.
+Print Assumptions C06_EOr_models.
+
+Theorem C06_sorted_is_canonical : forall C n, WF C n -> forall A,
+  map sort_abs (EOr C A) = map (canon_cfg n) (EOr C A).
+Proof. exact EOr_sort_canon. Qed.
+Print Assumptions C06_sorted_is_canonical.
+
+(* (4) *)
+Theorem C06_sort_abs_canon : forall n c V, Good c V -> range_set n V -> sort_abs c = canon_cfg n c.
+Proof. exact sort_abs_canon. Qed.
+Print Assumptions C06_sort_abs_canon.
+
+(* the cursor key does not depend on the order in which the literals are given *)
+Theorem C06_sort_abs_perm_eq : forall l l',
+  Permutation l l' -> NoDup (map Z.abs l) -> sort_abs l = sort_abs l'.
+Proof. exact sort_abs_perm_eq. Qed.
+Print Assumptions C06_sort_abs_perm_eq.
+
+(* (3) histories of requests for one assumption set (literals in any order from call to call).
+   run_pages: the calls in sequence; spec_lens c p ks: page i has size min k_i (c - position);
+   cyc c E [] p len: the len elements E[(p + j) mod c], j < len. *)
+Theorem C06_pages_cyclic : forall C n A, WF C n -> (0 < n)%nat -> or_no_true_child C = true ->
+  in_range n A -> NoDup (map Z.abs A) -> (forall A', Permutation A A' -> exec_spec C n A') ->
+  forall reqs cur s, Clean C s -> Forall (req_ok A) reqs -> 0 < MCA C n A ->
+  let p := cur_get cur (sort_abs A) in
+  0 <= p < MCA C n A ->
+  exists rs cur' s',
+    run_pages (build C n) reqs cur s = (rs, cur', s') /\
+    pages_of rs = map sort_abs (cyc (MCA C n A) (EOr C A) [] p
+                                    (spec_total (MCA C n A) p (map snd reqs))) /\
+    map (fun r => match r with Some l => Z.of_nat (length l) | None => -1 end) rs
+      = spec_lens (MCA C n A) p (map snd reqs) /\
+    0 <= cur_get cur' (sort_abs A) < MCA C n A.
+Proof. exact pages_cyclic. Qed.
+Print Assumptions C06_pages_cyclic.
+
+Theorem C06_pages_within_cycle : forall C n A, WF C n -> (0 < n)%nat -> or_no_true_child C = true ->
+  in_range n A -> NoDup (map Z.abs A) -> (forall A', Permutation A A' -> exec_spec C n A') ->
+  forall reqs cur s, Clean C s -> Forall (req_ok A) reqs -> 0 < MCA C n A ->
+  cur_get cur (sort_abs A) = 0 -> zsum (map snd reqs) <= MCA C n A ->
+  exists rs cur' s',
+    run_pages (build C n) reqs cur s = (rs, cur', s') /\
+    pages_of rs = map sort_abs (firstn (Z.to_nat (zsum (map snd reqs))) (EOr C A)) /\
+    NoDup (pages_of rs) /\
+    cur_get cur' (sort_abs A) = zsum (map snd reqs) mod MCA C n A.
+Proof. exact pages_within_cycle. Qed.
+Print Assumptions C06_pages_within_cycle.
+
+Theorem C06_pages_within_cycle_from : forall C n A, WF C n -> (0 < n)%nat ->
+  or_no_true_child C = true ->
+  in_range n A -> NoDup (map Z.abs A) -> (forall A', Permutation A A' -> exec_spec C n A') ->
+  forall reqs cur s, Clean C s -> Forall (req_ok A) reqs -> 0 < MCA C n A ->
+  let p := cur_get cur (sort_abs A) in
+  0 <= p < MCA C n A -> p + zsum (map snd reqs) <= MCA C n A ->
+  exists rs cur' s',
+    run_pages (build C n) reqs cur s = (rs, cur', s') /\
+    pages_of rs = map sort_abs (slice p (p + zsum (map snd reqs)) (EOr C A)) /\
+    NoDup (pages_of rs) /\
+    cur_get cur' (sort_abs A) = (p + zsum (map snd reqs)) mod MCA C n A.
+Proof. exact pages_within_cycle_from. Qed.
+Print Assumptions C06_pages_within_cycle_from.
+
+Theorem C06_pages_cycle : forall C n A, WF C n -> (0 < n)%nat -> or_no_true_child C = true ->
+  in_range n A -> NoDup (map Z.abs A) -> (forall A', Permutation A A' -> exec_spec C n A') ->
+  forall reqs cur s, Clean C s -> Forall (req_ok A) reqs -> 0 < MCA C n A ->
+  cur_get cur (sort_abs A) = 0 -> zsum (map snd reqs) = MCA C n A ->
+  exists rs cur' s',
+    run_pages (build C n) reqs cur s = (rs, cur', s') /\
+    pages_of rs = map sort_abs (EOr C A) /\
+    Permutation (pages_of rs) (ModelsA C n A) /\
+    NoDup (pages_of rs) /\
+    cur_get cur' (sort_abs A) = 0.
+Proof. exact pages_cycle. Qed.
+Print Assumptions C06_pages_cycle.
+
+(* without assumptions nothing is left as a hypothesis *)
+Theorem C06_exec_spec_nil : forall C n, WF C n -> exec_spec C n [].
+Proof. exact exec_spec_nil. Qed.
+Print Assumptions C06_exec_spec_nil.
+
+Theorem C06_enumerate_page_nil : forall C n, WF C n -> (0 < n)%nat -> or_no_true_child C = true ->
+  forall amount cur s, Clean C s -> 0 < amount ->
+  let c := MCA C n [] in
+  let p := cur_get cur [] in
+  let stop := Z.min c (p + amount) in
+  0 < c -> 0 <= p < c ->
+  exists s2, Clean C s2 /\
+    enumerate (build C n) [] amount cur s =
+    (s2, cur_set cur [] (stop mod c), Some (map sort_abs (slice p stop (EOr C [])))).
+Proof. exact enumerate_page_nil. Qed.
+Print Assumptions C06_enumerate_page_nil.
+
+Theorem C06_pages_cycle_nil : forall C n, WF C n -> (0 < n)%nat -> or_no_true_child C = true ->
+  forall reqs cur s, Clean C s -> Forall (req_ok []) reqs -> 0 < MCA C n [] ->
+  cur_get cur [] = 0 -> zsum (map snd reqs) = MCA C n [] ->
+  exists rs cur' s',
+    run_pages (build C n) reqs cur s = (rs, cur', s') /\
+    Permutation (pages_of rs) (Models C n) /\ NoDup (pages_of rs) /\ cur_get cur' [] = 0.
+Proof. exact pages_cycle_nil. Qed.
+Print Assumptions C06_pages_cycle_nil.
+
+(* the hypothesis 0 < n cannot be dropped: the circuit consisting of one true node (0 features)
+   is WF and has one model, but its hidden root yields an empty page and rt = 0
+   (the Rust evaluates `stop % rt` there) *)
+Definition top : circuit := [TrueN].
+Example C06_true_root_refuted :
+  WF top 0 /\ MCA top 0 [] = 1 /\ EOr top [] = [[]] /\
+  snd (enumerate (build top 0) [] 1 [] (fresh_scratch top)) = Some [] /\
+  rt (build top 0) (fst (fst (enumerate (build top 0) [] 1 [] (fresh_scratch top)))) = 0.
+Proof.
+  split; [apply check_wf_sound; vm_compute; reflexivity|].
+  repeat (split; [vm_compute; reflexivity|]). vm_compute; reflexivity.
+Qed.
+
+(* ---------- non-vacuity ---------- *)
+(* Or root: x1 <-> x2 *)
+Definition ex_iff : circuit :=
+  [Lit 1; Lit (-1); Lit 2; Lit (-2); And [0;2]%nat; And [1;3]%nat; Or [4;5]%nat].
+(* And root with a true child: three free features *)
+Definition ex_and : circuit :=
+  [Lit 1; Lit (-1); Or [0;1]%nat; TrueN; Lit 2; Lit (-2); Or [4;5]%nat;
+   Lit 3; Lit (-3); Or [7;8]%nat; And [2;3;6;9]%nat].
+
+Tactic Notation "concrete_exec" integer(k) :=
+  let s := fresh "s" in let s1 := fresh "s1" in let s2 := fresh "s2" in let r := fresh "r" in
+  let Hcl := fresh "Hcl" in let Hpre := fresh "Hpre" in let Hq := fresh "Hq" in
+  intros s s1 s2 r Hcl Hpre Hq;
+  let Hm := fresh "Hm" in let Hmd := fresh "Hmd" in
+  destruct (clean_shape _ _ Hcl) as [Hm Hmd];
+  pose proof (cl_pds _ _ Hcl) as Hpd;
+  destruct s as [ts ms pd md]; cbn [marks mdl pds] in Hm, Hmd, Hpd; subst ms md;
+  vm_compute in Hpre; inversion Hpre; subst s1; clear Hpre;
+  vm_compute in Hq; inversion Hq; subst s2 r; clear Hq;
+  split; [vm_compute; reflexivity|]; split;
+  [ intros _ i Hi Hnt;
+    do k (destruct i as [|i]; [try (vm_compute; reflexivity); exfalso; now apply Hnt|]);
+    cbn in Hi; lia
+  | constructor; cbn [temps marks pds mdl]; try reflexivity; [exact Hpd|repeat constructor] ].
+
+Example ex_iff_hyps :
+  WF ex_iff 2 /\ or_no_true_child ex_iff = true /\ in_range 2 [1] /\ NoDup (map Z.abs [1]) /\
+  (forall A', Permutation [1] A' -> exec_spec ex_iff 2 A') /\
+  Clean ex_iff (fresh_scratch ex_iff) /\ MCA ex_iff 2 [1] = 1 /\ MCA ex_iff 2 [] = 2.
+Proof.
+  split; [apply check_wf_sound; vm_compute; reflexivity|]. split; [reflexivity|].
+  split; [intros l [<-|[]]; cbn; lia|]. split; [repeat constructor; intros []|].
+  split; [|split; [apply fresh_clean|split; vm_compute; reflexivity]].
+  intros A' HP. apply Permutation_length_1_inv in HP. subst A'. concrete_exec 7.
+Qed.
+
+Example ex_and_hyps :
+  WF ex_and 3 /\ or_no_true_child ex_and = true /\ in_range 3 [-2] /\ NoDup (map Z.abs [-2]) /\
+  (forall A', Permutation [-2] A' -> exec_spec ex_and 3 A') /\
+  Clean ex_and (fresh_scratch ex_and) /\ MCA ex_and 3 [-2] = 4 /\ MCA ex_and 3 [] = 8.
+Proof.
+  split; [apply check_wf_sound; vm_compute; reflexivity|]. split; [reflexivity|].
+  split; [intros l [<-|[]]; cbn; lia|]. split; [repeat constructor; intros []|].
+  split; [|split; [apply fresh_clean|split; vm_compute; reflexivity]].
+  intros A' HP. apply Permutation_length_1_inv in HP. subst A'. concrete_exec 11.
+Qed.
+
+(* the statements evaluated: a page in the middle of the cycle, the last page of a cycle (cursor
+   back to 0), a request running over the end (truncated), a whole cycle in three requests *)
+Example ex_and_pages :
+  enumerate (build ex_and 3) [-2] 2 [([-2], 1)] (fresh_scratch ex_and)
+    = (fst (fst (enumerate (build ex_and 3) [-2] 2 [([-2], 1)] (fresh_scratch ex_and))),
+       [([-2], 3)], Some (map sort_abs (slice 1 3 (EOr ex_and [-2])))) /\
+  snd (enumerate (build ex_and 3) [-2] 7 [([-2], 1)] (fresh_scratch ex_and))
+    = Some (map sort_abs (slice 1 4 (EOr ex_and [-2]))) /\
+  snd (fst (enumerate (build ex_and 3) [-2] 7 [([-2], 1)] (fresh_scratch ex_and))) = [([-2], 0)] /\
+  EOr ex_and [-2] = [[3; -2; 1]; [3; -2; -1]; [-3; -2; 1]; [-3; -2; -1]] /\
+  fst (fst (run_pages (build ex_and 3) [([], 3); ([], 3); ([], 2)] [] (fresh_scratch ex_and)))
+    = [Some [[1; 2; 3]; [-1; 2; 3]; [1; -2; 3]];
+       Some [[-1; -2; 3]; [1; 2; -3]; [-1; 2; -3]];
+       Some [[1; -2; -3]; [-1; -2; -3]]].
+Proof. repeat (split; [vm_compute; reflexivity|]). vm_compute; reflexivity. Qed.
+
+Example ex_iff_pages :
+  snd (enumerate (build ex_iff 2) [] 1 [([], 1)] (fresh_scratch ex_iff))
+    = Some (map sort_abs (slice 1 2 (EOr ex_iff []))) /\
+  snd (fst (enumerate (build ex_iff 2) [] 1 [([], 1)] (fresh_scratch ex_iff))) = [([], 0)] /\
+  EOr ex_iff [] = [[2; 1]; [-2; -1]] /\
+  snd (enumerate (build ex_iff 2) [1; -2] 1 [] (fresh_scratch ex_iff)) = None /\
+  snd (enumerate (build ex_iff 2) [3] 1 [] (fresh_scratch ex_iff)) = None.
+Proof. repeat (split; [vm_compute; reflexivity|]). vm_compute; reflexivity. Qed.
+
+(* the hypothesis exec_spec evaluated (fresh scratch) on every partial assignment, and with every
+   literal repeated 8 times (more than 20 literals: the default strategy instead of the marker
+   strategy), for the two circuits above and a deeper one with a core literal and a true node *)
+Definition ex_core : circuit :=
+  [Lit 1; Lit 2; Lit (-2); Lit 3; Lit (-3); And [1;3]%nat; And [2;4]%nat; Or [5;6]%nat; TrueN;
+   And [0;8;7]%nat].
+Example exec_spec_evaluated :
+  check_wf ex_core 3 = true /\ or_no_true_child ex_core = true /\
+  forallb (exec_okb ex_iff 2) (partials [2;1]) = true /\
+  forallb (exec_okb ex_and 3) (partials [3;1;2]) = true /\
+  forallb (exec_okb ex_core 3) (partials [3;1;2]) = true /\
+  forallb (exec_okb ex_core 3)
+          (map (fun a => a ++ a ++ a ++ a ++ a ++ a ++ a ++ a) (partials [3;1;2])) = true.
+Proof. repeat (split; [vm_compute; reflexivity|]). vm_compute; reflexivity. Qed.
